@@ -1,12 +1,35 @@
 (* W_json — the wire layer of JSON structure (json.go, json.base.go; bytesDecReader's json helpers):
    what the Encoder driver writes is what Decode(&interface{}) reads back; sequences of values on one
    Decoder; the skip scanner ends.  Only statements, closed by [exact], with [Print Assumptions]
-   beneath each.  The lexical leaves (string quoting, float and time texts) are a parameter [L : leaf];
-   the round-trip statements assume [leaf_laws L] (JsonRT.v), which is property C09's subject. *)
+   beneath each.  The lexical leaves are a parameter [L : leaf].  The theorems named W_json_* are stated
+   for the leaf [c09_leaf_of O]: strings and integers are the C09 model of json.go (quoteStr,
+   dblQuoteStringAsBytes, jsonEncodeUint, parseUint64_simple), whose laws are PROVED in Wire/JsonLeaf.v
+   from property C09's theorems; O is the oracle for what is not modelled (strconv float formatting,
+   parseFloat64, time layout) and the only hypothesis left is [float_time_laws] about it.  The same
+   statements for an arbitrary leaf under the full record [leaf_laws] are kept as W_json_*_anyleaf. *)
+
+
 From Coq Require Import List NArith ZArith Bool Lia.
-From Verif Require Import Base.Outcome Wire.Item Gen.Consts Wire.Json Wire.JsonProofs Wire.JsonRT Wire.JsonDepth Wire.JsonTotal Wire.JsonSkip.
+From Verif Require Import Base.Outcome Wire.Item Gen.Consts Wire.Json Wire.JsonProofs Wire.JsonRT Wire.JsonDepth Wire.JsonTotal Wire.JsonSkip Wire.JsonLeaf.
 Import ListNotations.
 Open Scope N_scope.
+
+(* what is proved about the leaves, for every oracle: string literals without quote/backslash decode to
+   themselves; what quoteStr wrote decodes to utf8_sanitise s and ends at the closing quote, for the
+   decoder AND for the skip scanner; decimal integers are digits and parse back to their value *)
+Theorem W_json_leaf_str_int : forall (O : oracle), str_int_laws (c09_leaf_of O).
+Proof. exact c09_str_int_laws. Qed.
+Print Assumptions W_json_leaf_str_int.
+
+(* ... hence the full law record follows from the oracle part alone *)
+Theorem W_json_leaf_laws : forall (O : oracle), float_time_laws (c09_leaf_of O) -> leaf_laws (c09_leaf_of O).
+Proof. exact c09_leaf_laws. Qed.
+Print Assumptions W_json_leaf_laws.
+
+(* the string decoder of the model ends on every input and never hands back more than it was given *)
+Theorem W_json_leaf_total : forall (O : oracle), leaf_total (c09_leaf_of O).
+Proof. exact c09_leaf_total. Qed.
+Print Assumptions W_json_leaf_total.
 
 (* C01 at the wire level.  For every leaf implementation satisfying the leaf laws, encoder option vector,
    decoder option vector, item json can carry ([jwf]: ranges; no tags/extensions; []byte as base64;
@@ -18,7 +41,18 @@ Open Scope N_scope.
    decoding the encoding yields exactly [norm] of the item and leaves the tokenizer in state [after ..]:
    nothing pending, [tl] unread -- except after a bare number, whose terminating byte (the first byte of
    [tl]) has been consumed as the pending token. *)
-Theorem W_json_dec_enc : forall (L : leaf), leaf_laws L ->
+Theorem W_json_dec_enc : forall (O : oracle), float_time_laws (c09_leaf_of O) ->
+  forall (o : eopts) (D : dopts) (key : bool) (lvl : N) (i : item) (ws tl : list N) (fuel : nat) (dp : Z),
+  jwf (c09_leaf_of O) o D key i -> (key = true -> smap D = false) -> forallb isws ws = true ->
+  delim_ok (isnum (c09_leaf_of O) o key i) tl ->
+  (2 * length (enc_at (c09_leaf_of O) o key lvl i) <= fuel)%nat -> (dp + Z.of_nat (depth i) < maxdepth D)%Z ->
+  dec (c09_leaf_of O) D fuel dp key (st0 (ws ++ enc_at (c09_leaf_of O) o key lvl i ++ tl))
+    = Ok (norm (c09_leaf_of O) o D key i, after (isnum (c09_leaf_of O) o key i) tl).
+Proof. exact (fun O FT => dec_enc_lemma (c09_leaf_of O) (c09_leaf_laws O FT)). Qed.
+Print Assumptions W_json_dec_enc.
+
+(* the same for an arbitrary leaf under the full law record *)
+Theorem W_json_dec_enc_anyleaf : forall (L : leaf), leaf_laws L ->
   forall (o : eopts) (D : dopts) (key : bool) (lvl : N) (i : item) (ws tl : list N) (fuel : nat) (dp : Z),
   jwf L o D key i -> (key = true -> smap D = false) -> forallb isws ws = true ->
   delim_ok (isnum L o key i) tl ->
@@ -26,31 +60,50 @@ Theorem W_json_dec_enc : forall (L : leaf), leaf_laws L ->
   dec L D fuel dp key (st0 (ws ++ enc_at L o key lvl i ++ tl))
     = Ok (norm L o D key i, after (isnum L o key i) tl).
 Proof. exact dec_enc_lemma. Qed.
-Print Assumptions W_json_dec_enc.
+Print Assumptions W_json_dec_enc_anyleaf.
 
 (* the API form: one Encode call (with its TermWhitespace byte), then Decode(&interface{}) on a fresh
    Decoder over the output followed by anything; what is left unread is spelled out *)
-Theorem W_json_dec_naked_enc : forall (L : leaf), leaf_laws L ->
+Theorem W_json_dec_naked_enc : forall (O : oracle), float_time_laws (c09_leaf_of O) ->
+  forall (o : eopts) (D : dopts) (i : item) (rest : list N),
+  jwf (c09_leaf_of O) o D false i -> (termWs o = true \/ delim_ok (isnum (c09_leaf_of O) o false i) rest) ->
+  (Z.of_nat (depth i) < maxdepth D)%Z ->
+  dec_naked (c09_leaf_of O) D (dec_fuel (st0 (enc_top (c09_leaf_of O) o i ++ rest))) (enc_top (c09_leaf_of O) o i ++ rest)
+    = Ok (norm (c09_leaf_of O) o D false i, inp (after (isnum (c09_leaf_of O) o false i) (term o ++ rest))).
+Proof. exact (fun O FT => dec_naked_enc_lemma (c09_leaf_of O) (c09_leaf_laws O FT)). Qed.
+Print Assumptions W_json_dec_naked_enc.
+
+(* the same for an arbitrary leaf under the full law record *)
+Theorem W_json_dec_naked_enc_anyleaf : forall (L : leaf), leaf_laws L ->
   forall (o : eopts) (D : dopts) (i : item) (rest : list N),
   jwf L o D false i -> (termWs o = true \/ delim_ok (isnum L o false i) rest) ->
   (Z.of_nat (depth i) < maxdepth D)%Z ->
   dec_naked L D (dec_fuel (st0 (enc_top L o i ++ rest))) (enc_top L o i ++ rest)
     = Ok (norm L o D false i, inp (after (isnum L o false i) (term o ++ rest))).
 Proof. exact dec_naked_enc_lemma. Qed.
-Print Assumptions W_json_dec_naked_enc.
+Print Assumptions W_json_dec_naked_enc_anyleaf.
 
 (* C11 at the wire level, sequences: values written by successive Encode calls, each followed by any white
    space (a bare number needs TermWhitespace or at least one white-space byte: [doc_ok]), then anything:
    successive Decode calls on ONE Decoder (the pending token carries over) return the values in order, and
    NumBytesRead after the k-th call is the total minus what [seq_expect] lists as unread: everything after
    the k-th encoding, less the one delimiter byte a bare number consumes. *)
-Theorem W_json_seq : forall (L : leaf), leaf_laws L ->
+Theorem W_json_seq : forall (O : oracle), float_time_laws (c09_leaf_of O) ->
+  forall (o : eopts) (D : dopts) (rest : list N) (total : N) (docs : list (item * list N)) (num : bool) (pre : list N),
+  Forall (doc_ok (c09_leaf_of O) o D) docs -> forallb isws pre = true ->
+  dec_seq (c09_leaf_of O) D (length docs) total (after num (pre ++ enc_seq (c09_leaf_of O) o docs ++ rest))
+    = Ok (map (fun vr => (fst vr, total - snd vr)) (seq_expect (c09_leaf_of O) o D docs rest)).
+Proof. exact (fun O FT => seq_lemma (c09_leaf_of O) (c09_leaf_laws O FT)). Qed.
+Print Assumptions W_json_seq.
+
+(* the same for an arbitrary leaf under the full law record *)
+Theorem W_json_seq_anyleaf : forall (L : leaf), leaf_laws L ->
   forall (o : eopts) (D : dopts) (rest : list N) (total : N) (docs : list (item * list N)) (num : bool) (pre : list N),
   Forall (doc_ok L o D) docs -> forallb isws pre = true ->
   dec_seq L D (length docs) total (after num (pre ++ enc_seq L o docs ++ rest))
     = Ok (map (fun vr => (fst vr, total - snd vr)) (seq_expect L o D docs rest)).
 Proof. exact seq_lemma. Qed.
-Print Assumptions W_json_seq.
+Print Assumptions W_json_seq_anyleaf.
 
 
 (* C11 at the wire level: the second parser (nextValueBytes: swallow of unknown fields, codec.Raw,
@@ -59,21 +112,39 @@ Print Assumptions W_json_seq.
    the SAME state as Decode(&interface{}) does (W_json_dec_enc): decode, skip and raw agree on extents,
    the one-byte look-ahead after a bare number included (since repair FWjson-1 that byte is no longer part of
    the bytes handed back). *)
-Theorem W_json_skip_enc : forall (L : leaf), leaf_laws L ->
+Theorem W_json_skip_enc : forall (O : oracle), float_time_laws (c09_leaf_of O) ->
+  forall (o : eopts) (D : dopts) (key : bool) (lvl : N) (i : item) (s : st) (tl : list N),
+  jwf (c09_leaf_of O) o D key i -> advance s = advance (mkst 0 (enc_at (c09_leaf_of O) o key lvl i ++ tl)) ->
+  delim_ok (isnum (c09_leaf_of O) o key i) tl ->
+  nvb s = Ok (enc_at (c09_leaf_of O) o key lvl i, after (isnum (c09_leaf_of O) o key i) tl).
+Proof. exact (fun O FT => nvb_enc_lemma (c09_leaf_of O) (c09_leaf_laws O FT)). Qed.
+Print Assumptions W_json_skip_enc.
+
+(* the same for an arbitrary leaf under the full law record *)
+Theorem W_json_skip_enc_anyleaf : forall (L : leaf), leaf_laws L ->
   forall (o : eopts) (D : dopts) (key : bool) (lvl : N) (i : item) (s : st) (tl : list N),
   jwf L o D key i -> advance s = advance (mkst 0 (enc_at L o key lvl i ++ tl)) ->
   delim_ok (isnum L o key i) tl ->
   nvb s = Ok (enc_at L o key lvl i, after (isnum L o key i) tl).
 Proof. exact nvb_enc_lemma. Qed.
-Print Assumptions W_json_skip_enc.
+Print Assumptions W_json_skip_enc_anyleaf.
 
-Theorem W_json_skip_raw_enc : forall (L : leaf), leaf_laws L ->
+Theorem W_json_skip_raw_enc : forall (O : oracle), float_time_laws (c09_leaf_of O) ->
+  forall (o : eopts) (D : dopts) (i : item) (rest : list N),
+  jwf (c09_leaf_of O) o D false i -> (termWs o = true \/ delim_ok (isnum (c09_leaf_of O) o false i) rest) ->
+  raw (enc_top (c09_leaf_of O) o i ++ rest) = Ok (enc (c09_leaf_of O) o ctx0 i, inp (after (isnum (c09_leaf_of O) o false i) (term o ++ rest))) /\
+  skip 0 (enc_top (c09_leaf_of O) o i ++ rest) = Ok (inp (after (isnum (c09_leaf_of O) o false i) (term o ++ rest))).
+Proof. exact (fun O FT => skip_enc_top_lemma (c09_leaf_of O) (c09_leaf_laws O FT)). Qed.
+Print Assumptions W_json_skip_raw_enc.
+
+(* the same for an arbitrary leaf under the full law record *)
+Theorem W_json_skip_raw_enc_anyleaf : forall (L : leaf), leaf_laws L ->
   forall (o : eopts) (D : dopts) (i : item) (rest : list N),
   jwf L o D false i -> (termWs o = true \/ delim_ok (isnum L o false i) rest) ->
   raw (enc_top L o i ++ rest) = Ok (enc L o ctx0 i, inp (after (isnum L o false i) (term o ++ rest))) /\
   skip 0 (enc_top L o i ++ rest) = Ok (inp (after (isnum L o false i) (term o ++ rest))).
 Proof. exact skip_enc_top_lemma. Qed.
-Print Assumptions W_json_skip_raw_enc.
+Print Assumptions W_json_skip_raw_enc_anyleaf.
 
 (* C02 at the wire level, skip side: nextValueBytes is a loop over the input bytes (the model's
    scanner is structurally recursive on the input): for EVERY byte list it ends, with a value or an error. *)
@@ -87,23 +158,43 @@ Print Assumptions W_json_skip_total.
    unread input than it was given ([leaf_total]), every option vector, tokenizer state (every input, every
    pending token), depth and position: fuel linear in the number of bytes not yet interpreted suffices, the
    decoder never runs out of fuel; and a successfully decoded value consumed at least one byte. *)
-Theorem W_json_dec_total : forall (L : leaf), leaf_total L ->
+Theorem W_json_dec_total : forall (O : oracle),
+  forall (D : dopts) (s : st) (fuel : nat) (dp : Z) (key : bool),
+  (2 * pending s + 1 <= fuel)%nat -> dec (c09_leaf_of O) D fuel dp key s <> OutOfFuel.
+Proof. exact (fun O => dec_total_lemma (c09_leaf_of O) (c09_leaf_total O)). Qed.
+Print Assumptions W_json_dec_total.
+
+(* the same for an arbitrary leaf under the full law record *)
+Theorem W_json_dec_total_anyleaf : forall (L : leaf), leaf_total L ->
   forall (D : dopts) (s : st) (fuel : nat) (dp : Z) (key : bool),
   (2 * pending s + 1 <= fuel)%nat -> dec L D fuel dp key s <> OutOfFuel.
 Proof. exact dec_total_lemma. Qed.
-Print Assumptions W_json_dec_total.
+Print Assumptions W_json_dec_total_anyleaf.
 
-Theorem W_json_dec_progress : forall (L : leaf), leaf_total L ->
+Theorem W_json_dec_progress : forall (O : oracle),
+  forall (D : dopts) (s : st) (fuel : nat) (dp : Z) (key : bool) (x : item) (s' : st),
+  (2 * pending s + 1 <= fuel)%nat -> dec (c09_leaf_of O) D fuel dp key s = Ok (x, s') -> (pending s' < pending s)%nat.
+Proof. exact (fun O => dec_progress_lemma (c09_leaf_of O) (c09_leaf_total O)). Qed.
+Print Assumptions W_json_dec_progress.
+
+(* the same for an arbitrary leaf under the full law record *)
+Theorem W_json_dec_progress_anyleaf : forall (L : leaf), leaf_total L ->
   forall (D : dopts) (s : st) (fuel : nat) (dp : Z) (key : bool) (x : item) (s' : st),
   (2 * pending s + 1 <= fuel)%nat -> dec L D fuel dp key s = Ok (x, s') -> (pending s' < pending s)%nat.
 Proof. exact dec_progress_lemma. Qed.
-Print Assumptions W_json_dec_progress.
+Print Assumptions W_json_dec_progress_anyleaf.
 
 (* the API form: Decode(&interface{}) on a fresh Decoder over ANY bytes, with the standard fuel *)
-Theorem W_json_dec_naked_total : forall (L : leaf), leaf_total L ->
+Theorem W_json_dec_naked_total : forall (O : oracle),
+  forall (D : dopts) (l : list N), dec_naked (c09_leaf_of O) D (dec_fuel (st0 l)) l <> OutOfFuel.
+Proof. exact (fun O => dec_naked_total_lemma (c09_leaf_of O) (c09_leaf_total O)). Qed.
+Print Assumptions W_json_dec_naked_total.
+
+(* the same for an arbitrary leaf under the full law record *)
+Theorem W_json_dec_naked_total_anyleaf : forall (L : leaf), leaf_total L ->
   forall (D : dopts) (l : list N), dec_naked L D (dec_fuel (st0 l)) l <> OutOfFuel.
 Proof. exact dec_naked_total_lemma. Qed.
-Print Assumptions W_json_dec_naked_total.
+Print Assumptions W_json_dec_naked_total_anyleaf.
 
 (* C14 at the wire level.  For EVERY leaf, option vector, tokenizer state (i.e. every input) and fuel:
    the instrumented decoder is the decoder, and its deepest recursion level (one level per nested
@@ -193,3 +284,20 @@ Example W_json_depth_nonvacuous :
   snd (deci exL (mkdopts false false false false 0) (N.to_nat 10000) 0 1 false (st0 (repeat 91 (N.to_nat 4000)))) = 1024%nat /\
   skip 0 (repeat 91 (N.to_nat 3000) ++ repeat 93 (N.to_nat 3000) ++ [55]) = Ok [55].
 Proof. vm_compute. repeat apply conj; reflexivity. Qed.
+
+(* the leaf laws instantiated: the oracle hypotheses are satisfiable (toy oracle), the proved string and
+   integer laws on concrete data (quote, then decode and skip; 2^64-1 written and parsed back), and the
+   correspondence's leaf IS an instance (c09_leaf T = c09_leaf_of (table_oracle T)) *)
+Example W_json_leaf_nonvacuous :
+  float_time_laws (c09_leaf_of toy_oracle) /\
+  leaf_laws (c09_leaf_of toy_oracle) /\
+  (forall T, c09_leaf T = c09_leaf_of (table_oracle T)) /\
+  quote_body exL false [34; 60; 233; 92] = [92; 34; 92; 117; 48; 48; 51; 99; 92; 117; 70; 70; 70; 68; 92; 92] /\
+  unquote exL (quote_body exL false [34; 60; 233; 92] ++ 34 :: [7]) = Ok ([34; 60; 239; 191; 189; 92], [7]) /\
+  cstr false (quote_body exL false [34; 60; 233; 92] ++ 34 :: [7]) = Ok [7] /\
+  udigits 18446744073709551615 = [49; 56; 52; 52; 54; 55; 52; 52; 48; 55; 51; 55; 48; 57; 53; 53; 49; 54; 49; 53] /\
+  Verif.C09.Model.parseUint64_simple (udigits 18446744073709551615) = (18446744073709551615%Z, true).
+Proof.
+  split; [exact toy_float_time_laws|]. split; [exact (c09_leaf_laws _ toy_float_time_laws)|].
+  split; [exact c09_leaf_eq|]. vm_compute. repeat apply conj; reflexivity.
+Qed.
